@@ -18,7 +18,7 @@ def replay(model, kind, seed=0):
     pars = {}
     pd = [p for p in info.parameters.call_parameters if p.polydisperse
           and (kind != "Iq" or p.type != "orientation")][:3]
-    sizes = [11, 7, 3]
+    sizes = [41, 5, 3]
     for p, n in zip(pd, sizes):
         pars[p.name + "_pd"] = 0.2 if p.relative_pd else 10.0
         pars[p.name + "_pd_n"] = n
